@@ -331,5 +331,6 @@ def predicate_stream(ctx, cirq, mods, n):
 
 
 def replay(ctx, data):
-    print('replay: the failing case is stored in the file; re-run `VERIF_SEED=%s ./check C04` to reproduce' % data.get('seed'))
-    return False
+    """Re-runs the generating stream with the recorded seed/tier and looks for the recorded signature."""
+    import sys
+    return runner.replay_by_rerun(sys.modules[__name__], ctx, data)
